@@ -23,6 +23,7 @@ fn gen_full_system(seed: u64) -> Plan {
     s.fault_pct = *rng.pick(&[0i64, 0, 10, 50]);
     s.fault_written = s.fault_pct > 0;
     s.source = if rng.chance(1, 2) { ConfigSource::File } else { ConfigSource::Env };
+    file_layout(&mut rng, &mut s);
     s.health_port = if rng.chance(2, 3) { Some(8000) } else { None };
     if rng.chance(1, 2) {
         s.client_stats = Some("on".into());
